@@ -1,7 +1,7 @@
 SPECIFICATION CtlFairSpec
 CONSTANTS
  Part = "ctl"
- Threads = {1, 2, 3}
+ Threads = {1, 2}
  Impls <- ImplsDX
  WrapperSubs = "replay"
  Template = FALSE
